@@ -271,13 +271,23 @@ def check(run, M, tier):
     for nm_, fo_ in (("_convolve", M.func("sigpy.conv._convolve")), ("_convolve_data_adjoint", M.func("sigpy.conv._convolve_data_adjoint")),
                      ("_convolve_filter_adjoint", M.func("sigpy.conv._convolve_filter_adjoint"))):
         whole[nm_] = _whole_function_equal(M, fo_, REF_NAMES[nm_])
-        run.check(True, "V4w", nm_, fo_.loc(), "whole-function comparison with the documented form: %s" % ("equal on every path" if whole[nm_] else "differs - rules V3/V4 examine the pieces"))
+        run.check(whole[nm_], "V4w", nm_, fo_.loc(), "equals the documented form on every path (for both admissible modes)",
+                  "%s no longer computes what the documented %s computes (compared as whole functions over symbolic shapes, for mode 'full' and 'valid'; names, "
+                  "temporaries, branch order and loop spelling do not matter): rules V3/V4 below examine which piece differs" % (nm_, nm_), stmt="V4w:" + nm_)
     if all(whole.values()):
         run.ok("V3", "adjoint mode table", "follows from the whole-function equality of both adjoints with the documented forms (full->valid; valid: data m>=n->full else valid; "
                "filter m>=n->valid else full; zero buffers m+n-1 / |m-n|+1)", da.loc())
         run.ok("V4", "loop bodies", "follow from the whole-function equality (forward convolve(...)[slc] accumulated; adjoints zero-stuff output[k,j] at slc and accumulate the "
                "conjugating correlate with the adjoint mode; result reshaped to the requested shape)", fwd.loc())
         return _rest_after_v4(run, M, fwd)
+    try:
+        _pieces(run, M, fwd, da, fa)
+    except (KeyError, Unrecognised, AttributeError, TypeError, IndexError) as e_:
+        run.info("V3/V4 piecewise diagnosis not available for this form (%s: %s)" % (type(e_).__name__, e_))
+    _rest_after_v4(run, M, fwd)
+
+
+def _pieces(run, M, fwd, da, fa):
     table = {"data": {("full", None): "valid", ("valid", True): "full", ("valid", False): "valid"},
              "filt": {("full", None): "valid", ("valid", True): "valid", ("valid", False): "full"}}
     for f, which in ((da, "data"), (fa, "filt")):
@@ -389,7 +399,6 @@ def check(run, M, tier):
             fin = [s for s in f.body if isinstance(s, ast.Assign) and unparse(s.value).replace(" ", "") == want_ret.replace(" ", "")]
             run.check(len(fin) == 1 and len(rets) == 1 and unparse(rets[0].value) == kind.replace("filt", "filt"), "V2", f.name + " result shape", f.loc(),
                       "returns the accumulator reshaped to the requested shape", "%s does not return %s" % (f.name, want_ret), stmt="V2:ret:" + f.name)
-    _rest_after_v4(run, M, fwd)
 
 
 def _rest_after_v4(run, M, fwd):
